@@ -61,6 +61,18 @@ SHAPES = [
     ("ctas_then_scan", ["CREATE TEMP TABLE ct AS SELECT x, x % 9 AS k FROM generate_series(1, 500) a(x)"], "SELECT k, count(*), sum(x) FROM ct GROUP BY k"),
     ("insert_then_scan", ["CREATE TEMP TABLE it (x BIGINT)", "INSERT INTO it SELECT x FROM generate_series(1, 400) a(x)", "INSERT INTO it SELECT x + 1000 FROM it"], "SELECT count(*), sum(x) FROM it"),
     ("values_join", [], "SELECT v.a, w.b FROM (VALUES (1), (2), (3), (NULL)) v(a) LEFT JOIN (VALUES (2), (3), (3), (NULL)) w(b) ON v.a = w.b"),
+    # LIMIT (explicit or the LIMIT 1 of EXISTS) downstream of a join with a drain barrier: the partition that reaches the limit stops probing (F38 / F64)
+    ("exists_over_left_join", ["CREATE TEMP TABLE ea (x BIGINT)", "INSERT INTO ea VALUES (1), (2)", "CREATE TEMP TABLE eb (y BIGINT)", "INSERT INTO eb VALUES (1)"],
+     "SELECT x FROM ea WHERE EXISTS (SELECT 1 FROM ea a2 LEFT JOIN eb ON a2.x = eb.y WHERE a2.x = ea.x)"),
+    ("not_exists_over_right_join", [], f"SELECT count(*) FROM {GS}(1, 40) a(x) WHERE NOT EXISTS (SELECT 1 FROM {GS}(1, 30) b(y) RIGHT JOIN {GS}(10, 60) c(z) ON b.y = c.z WHERE c.z = a.x)"),
+    ("exists_corr_scalar_agg", ["CREATE TEMP TABLE et (k0 BIGINT, k1 BIGINT)", "INSERT INTO et VALUES (NULL,12345),(-1,NULL),(-22,-42),(-1000,-31),(4,NULL)"],
+     "SELECT * FROM et q1 WHERE EXISTS (SELECT 1 FROM et q4 WHERE q4.k0 <> (SELECT sum(q7.k1) FROM et q7 WHERE q7.k0 = q4.k0))"),
+    ("limit_over_left_join", [], f"SELECT count(*) FROM (SELECT a.x FROM {GS}(1, 300) a(x) LEFT JOIN {GS}(1, 100) b(y) ON a.x = b.y LIMIT 7) s"),
+    ("limit_over_right_join", [], f"SELECT count(*) FROM (SELECT a.x FROM {GS}(1, 100) a(x) RIGHT JOIN {GS}(1, 300) b(y) ON a.x = b.y LIMIT 7) s"),
+    ("limit_over_nl_left_join", ["SET enable_hash_joins TO false"], f"SELECT count(*) FROM (SELECT a.x FROM {GS}(1, 300) a(x) LEFT JOIN {GS}(1, 100) b(y) ON a.x = b.y LIMIT 7) s"),
+    ("limit_over_union", [], f"SELECT count(*) FROM (SELECT x FROM (SELECT x FROM {GS}(1, 300) a(x) UNION ALL SELECT y FROM {GS}(1, 300) b(y)) u LIMIT 5) s"),
+    ("limit_over_join_over_cte", [], f"WITH c AS MATERIALIZED (SELECT x FROM {GS}(1, 200) a(x)) SELECT count(*) FROM (SELECT c.x FROM c LEFT JOIN {GS}(1, 50) g(y) ON c.x = g.y LIMIT 3) s"),
+    ("const_in_subquery", [], f"SELECT count(*) FROM {GS}(1, 20) a(x) WHERE 1 IN (SELECT y FROM {GS}(1, 5) b(y)) AND 9 NOT IN (SELECT y FROM {GS}(1, 5) b(y))"),
     ("runtime_error", [], f"SELECT sum(c) FROM (SELECT CASE WHEN x = 777 THEN 9223372036854775807 ELSE x END AS c FROM {GS}(1, 1000) a(x) UNION ALL SELECT 9223372036854775807) s"),
     ("cast_error_one_row", [], f"SELECT CAST(CASE WHEN x = 333 THEN 'zz' ELSE '1' END AS INT) FROM {GS}(1, 1000) a(x)"),
 ]
@@ -164,6 +176,60 @@ def sched_component(ck, runner, rng, tier):
                         stats["err"] += 1
                         if ref_kind == "rows":
                             ck.violation(f"sched/{name}/error-depends-on-schedule", f"shape {name} with {P} partitions under a {policy} schedule fails ({run.get('err', '')[:100]}); the ordinary run returns rows", dict(replay, err=run.get("err")))
+    proc.kill()
+    for k, v in stats.items():
+        ck.note(comp, k, v)
+
+
+def sched_generated(ck, rng, tier):
+    """Random typed queries (the generator of C01-C03: joins of every kind, EXISTS / IN / scalar subqueries, aggregates, DISTINCT,
+    UNION, LIMIT, CASE) under the controlled scheduler: no schedule may stop with work remaining, run forever or panic, and a
+    schedule may not turn rows into an error or an error into rows. (Which rows come out is C01/C03's business: a LIMIT without
+    ORDER BY may legitimately return different rows under different schedules.)"""
+    import qgen
+    comp = "sched_generated"
+    proc = Proc("sched")
+    feats = {"join", "outer", "semi", "agg", "distinct", "union", "limit", "case", "inlist", "rollup"}
+    ndb = 150 if tier == "quick" else 2500
+    stats = {"queries": 0, "runs": 0, "rows": 0, "err": 0, "exists_over_outer_join": 0, "with_limit": 0}
+    for d in range(ndb):
+        db = qgen.gen_db(rng, ntables=3, max_rows=rng.pick([4, 12, 30]))
+        g = qgen.Gen(rng, db, feats)
+        setup = qgen.setup_sql(db, inserts=rng.pick([1, 2, 3]))
+        for _ in range(4):
+            q, ty = g.query(rng.pick([2, 3, 3, 4]))
+            if qgen.excluded(q) or not ty:
+                continue
+            sql = qgen.Renderer(g.schema).query(q)
+            stats["queries"] += 1
+            stats["exists_over_outer_join"] += 1 if qgen.has_exists_over_outer_join(q) else 0
+            stats["with_limit"] += 1 if " LIMIT " in sql else 0
+            kinds = set()
+            for P in ([2, 4] if tier == "quick" else [2, 3, 4, 8]):
+                seed = rng.next() % (2 ** 31)
+                req = {"partitions": P, "seed": seed, "schedules": 3 if tier == "quick" else 8, "spurious": rng.pick([0, 20]), "policy": rng.pick(["random", "random", "lifo", "starve-client"]),
+                       "setup": [f"SET partitions TO {P}"] + setup, "query": sql}
+                res = proc.call(req, timeout=180)
+                if "runs" not in res:
+                    ck.violation("sched_generated/harness-crash", f"controlled run of a generated query (P={P}) died: {str(res)[:200]}", {"kind": "crash", "request": req, "result": res})
+                    continue
+                for i, run in enumerate(res["runs"]):
+                    stats["runs"] += 1
+                    ck.count(comp, 1)
+                    ck.nontrivial((sql, P, seed, i))
+                    out = run.get("outcome")
+                    replay = {"kind": "schedule", "partitions": P, "policy": req["policy"], "spurious_pct": req["spurious"], "seed": seed, "schedule_index": i, "setup": req["setup"], "query": sql,
+                              "trace_task_ids": run.get("trace"), "replay_cmd": f"echo '{json.dumps(dict(req, id=1))}' | {vlib.GVH} sched"}
+                    if out in ("hang", "livelock"):
+                        ck.violation(f"sched_generated/{out}", f"lost wake-up: a generated query with {P} partitions stops with work remaining ({run.get('unfinished_pipelines')} pipelines unfinished, no task runnable): {sql[:200]}"
+                                     if out == "hang" else f"a generated query with {P} partitions does not terminate within 400000 polls: {sql[:200]}", dict(replay, run={k: v for k, v in run.items() if k != 'rows'}))
+                    elif out in ("panic", "setup-failed"):
+                        ck.violation(f"sched_generated/{out}", f"generated query (P={P}): {str(run)[:200]}", dict(replay, run=run))
+                    elif out in ("rows", "err"):
+                        stats[out] += 1
+                        kinds.add(out)
+            if len(kinds) > 1:
+                ck.violation("sched_generated/error-depends-on-schedule", f"a generated query returns rows under some schedules and fails under others: {sql[:200]}", {"kind": "schedule", "setup": setup, "query": sql})
     proc.kill()
     for k, v in stats.items():
         ck.note(comp, k, v)
@@ -284,21 +350,12 @@ def error_component(ck, runner, tier):
                     ck.violation("errors/session-dead-after-error", "the session does not answer after a failed query", {"kind": "impl-vs-oracle", "stmts": stmts, "result": res[2]})
 
 
-def probes(ck, runner):
-    stmts = ["CREATE TEMP TABLE a (x BIGINT)", "INSERT INTO a VALUES (1), (2)", "CREATE TEMP TABLE b (y BIGINT)", "INSERT INTO b VALUES (1)",
-             "SELECT x FROM a WHERE EXISTS (SELECT 1 FROM a a2 LEFT JOIN b ON a2.x = b.y WHERE a2.x = a.x)"]
-    res = runner.run(stmts, timeout=20)
-    bad = isinstance(res, dict) or "rows" not in res[-1]
-    ck.probe("subquery/exists-over-outer-join/hang", "EXISTS / NOT EXISTS whose subquery contains a LEFT/RIGHT join never finishes (the query hangs with every pipeline parked); F38",
-             {"kind": "crash", "stmts": stmts, "result": str(res)[:300]}, bad)
-
-
 def main():
     tier = sys.argv[1] if len(sys.argv) > 1 else "quick"
     ck = vlib.Check("C04", tier)
     ck.coverage["rule"] = (f"{len(SHAPES)} query shapes covering every cross-partition barrier (hash / nested-loop joins of every kind incl. probe sides that never produce a row, grouped / ungrouped / DISTINCT aggregates, sorts, "
                            "limits, unions, materialized CTEs scanned 2-3 times, CTAS, INSERT..SELECT, result back-pressure, run-time errors) x partitions x schedules (random with and without spurious wakes, fifo, lifo, "
-                           "client-starving, client-first) under a wake-only controlled scheduler; cancellation at 0/20/150 ms of long scans, joins and sorts on the real thread pool; errors in one partition; distinct = (shape, P, policy, seed)")
+                           "client-starving, client-first) under a wake-only controlled scheduler; randomly generated typed queries (joins of every kind, EXISTS/IN/scalar subqueries, aggregates, LIMIT) under the same scheduler; cancellation at 0/20/150 ms of long scans, joins and sorts on the real thread pool; errors in one partition; distinct = (shape, P, policy, seed)")
     ck.assumptions = ["one critical section of the Rust code = one atomic model action", "interleavings below poll granularity (inside one poll_execute) and rayon's own fairness are not controlled",
                       "cancellation is tested on the real thread pool (timing dependent): a lost cancel is only reported when the query would otherwise run at least 3x longer than the cancel delay + 0.6 s"]
     proof_ok = ck.proof_step()
@@ -313,6 +370,9 @@ def main():
         t0 = time.time()
         sched_component(ck, runner, rng, tier)
         ck.note("sched", "wall_s", round(time.time() - t0, 1))
+        t0 = time.time()
+        sched_generated(ck, rng, tier)
+        ck.note("sched_generated", "wall_s", round(time.time() - t0, 1))
         t0 = time.time()
         error_component(ck, runner, tier)
         if not vlib.HARNESS_DEGRADED:
